@@ -39,6 +39,16 @@ fn observe(x: &FeelNumber, with_literal: bool) -> J {
       Ok(val) => enc_value(&val),
       Err(_) => json!({"k": "err"}),
     };
+    rec["xsdd"] = match Value::try_from_xsd_double(&lit) {
+      Ok(val) => enc_value(&val),
+      Err(_) => json!({"k": "err"}),
+    };
+    if !lit.contains('.') {
+      rec["xsdi"] = match Value::try_from_xsd_integer(&lit) {
+        Ok(val) => enc_value(&val),
+        Err(_) => json!({"k": "err"}),
+      };
+    }
   }
   rec
 }
@@ -75,7 +85,13 @@ pub fn check(mut ctx: Ctx, replay: Option<J>) -> ! {
       if arith != 0 && !y.verif_parts().0 {
         return; // overflowed: C02's business
       }
-      recs.push(observe(&y, true));
+      crate::util::QUIET.with(|q| q.set(true));
+      let observed = std::panic::catch_unwind(std::panic::AssertUnwindSafe(|| observe(&y, true)));
+      crate::util::QUIET.with(|q| q.set(false));
+      recs.push(observed.unwrap_or_else(|_| {
+        let v = enc_number(&y);
+        json!({"v": {"s": v["s"], "c": v["c"], "e": v["e"]}, "fin": v["fin"], "text": "", "json": "", "back": {"k": "err"}, "hint": {"lead": 0, "trail": 0, "dot": 0}, "jhint": {"lead": 0, "trail": 0, "dot": 0}, "panic": true})
+      }));
       stim.push(json!({"neg": neg, "coef": coef, "e": e, "scale": scale, "arith": arith}));
     }
   };
